@@ -19,7 +19,11 @@ def how(d):
     if "run decomposition wrong" in s:
         return "Engine C symbolic discriminants"
     if "does not compile" in s:
-        return "compile: " + s.strip()[:70]
+        mm = re.search(r"does not compile: (\S+) \[", s)
+        if mm:
+            return "rustc rejects the derive output for %s (compile pre-pass)" % mm.group(1)
+        mm = re.search(r"documented combination does not compile: (#\[enum_tools\([^\]]*\)\])", s)
+        return "base case %s rejected (rustc)" % (mm.group(1)[:60] if mm else "")
     return s.strip()[:60]
 rows = ["| change | what it needs (short) | own property: v1 / v2 / v3 | caught by (latest run) |", "|---|---|---|---|"]
 cross = ["| change | other property checked | verdict | caught by |", "|---|---|---|---|"]
@@ -44,7 +48,8 @@ for name in sorted(res):
         for prop, d in sorted(res[name].get(v, {}).items()):
             if prop != own:
                 cross.append("| %s | %s | %s | %s |" % (name, prop, d["verdict"], how(d)))
-txt = "\n".join(rows) + "\n\nCross-property runs (does the check of a *different* property notice the change?):\n\n" + "\n".join(cross)
+txt = ("\n".join(rows) + "\n\nCross-property runs (does the check of a *different* property notice the change?  C10_a vs C09 is the "
+       "expected negative: a configuration that stops compiling is skipped by the differential pairs and left to C10):\n\n" + "\n".join(cross))
 s = open("/verif/DESIGN.md").read()
 if "@MATRIX@" in s:
     s = s.replace("@MATRIX@", "<!-- matrix-start -->\n" + txt + "\n<!-- matrix-end -->")
